@@ -92,7 +92,27 @@ def perturbations(doc: dict, rng: random.Random, k: int = 3):
     return out
 
 
+_VALIDATOR = None
+
+
 def schema_ok(doc: dict) -> bool:
+    """reference verdict: jsonschema (draft 7) on the published schema files,
+    independently of the implementation's validate_abstract_repr"""
+    global _VALIDATOR
+    if _VALIDATOR is None:
+        import jsonschema
+        from pulser.json.abstract_repr import SCHEMAS
+        from referencing import Registry, Resource
+
+        reg = Registry().with_resources(
+            [(n + "-schema.json", Resource.from_contents(SCHEMAS[n])) for n in ("device", "layout", "register", "noise")]
+        )
+        _VALIDATOR = jsonschema.Draft7Validator(SCHEMAS["sequence"], registry=reg)
+    return _VALIDATOR.is_valid(doc)
+
+
+def impl_schema_ok(doc: dict) -> bool:
+    """the implementation's own validation entry point"""
     from pulser.json.abstract_repr.validation import validate_abstract_repr
 
     try:
@@ -155,7 +175,7 @@ def first_unsupported(case) -> str:
 class C04(PropCheck):
     id = "C04"
     props_file = "Props/C04.v"
-    quick_cases = 260
+    quick_cases = 200
     thorough_cases = 3000
     shard = 20
     assumptions = [
@@ -276,7 +296,13 @@ class C04(PropCheck):
         if run["doc"] is not None:
             prng = random.Random(case.get("pseed", 0))
             for d in perturbations(run["doc"], prng):
-                run["perturbed"].append((d, schema_ok(d)))
+                ok = schema_ok(d)
+                run["perturbed"].append((d, ok))
+                if impl_schema_ok(d) != ok:
+                    bad("abstract:validation-disagrees:" + ("accepts-invalid" if not ok else "rejects-valid"),
+                        "validate_abstract_repr disagrees with the published schema on a perturbed document", json.dumps(d)[:2000])
+            if impl_schema_ok(run["doc"]) != schema_ok(run["doc"]):
+                bad("abstract:validation-disagrees:document", "validate_abstract_repr disagrees with the published schema on the serialised document")
         return run, viols
 
     # ------------------------------------------------------------------ Coq side
@@ -371,6 +397,12 @@ class C04(PropCheck):
             if run["doc"]["measurement"] is not None:
                 inc("document_extras", "measurement")
         acc["perturbed_docs"] = acc.get("perturbed_docs", 0) + len(run.get("perturbed", []))
+
+    def replay(self, payload: dict) -> int:
+        # corpus files are bare cases; replay files wrap the case
+        if "case" not in payload and "ops" in payload:
+            payload = dict(case=payload)
+        return super().replay(payload)
 
     def focused_search(self, rng, broken, budget):
         return [self.gen_case(rng, "quick") for _ in range(budget)]
